@@ -1,14 +1,22 @@
 import BeffVerif.Sexp
 import BeffVerif.Driver.BddOps
 import BeffVerif.Driver.ShaOps
+import BeffVerif.Driver.RtOps
 /-! Line-protocol driver: one request S-expression per line on stdin, one reply per line on stdout. -/
 open BeffVerif
+
+/-- second channel: hypotheses of partial theorems violated by the request (empty for most ops) -/
+def hyps (req : Sexp) : Option Sexp :=
+  match req with
+  | .list [.atom "rt", env, rt, val, .atom _] => some (Driver.rtHyps env rt val)
+  | _ => none
 
 def handle (req : Sexp) : Sexp :=
   match req with
   | .list [.atom "bdd-ops", .list atoms, .list script] => Driver.bddOps atoms script
   | .list (.atom "sha-bytes" :: chunks) => Driver.shaBytes chunks
   | .list (.atom "sha-toks" :: toks) => Driver.shaToks toks
+  | .list [.atom "rt", env, rt, val, .atom strict] => Driver.rtOp env rt val (strict == "true")
   | _ => .list [.atom "bad-op"]
 
 partial def loop (h : IO.FS.Stream) (out : IO.FS.Stream) : IO Unit := do
@@ -17,7 +25,10 @@ partial def loop (h : IO.FS.Stream) (out : IO.FS.Stream) : IO Unit := do
   let t := line.trimAscii.toString
   if t.isEmpty then loop h out else
   match Sexp.parse t with
-  | some req => out.putStrLn (toString (handle req))
+  | some req =>
+    match hyps req with
+    | some h => out.putStrLn (toString (handle req) ++ "\t" ++ toString h)
+    | none => out.putStrLn (toString (handle req))
   | none => out.putStrLn "(bad-request)"
   loop h out
 
